@@ -284,8 +284,47 @@ def check_book(model):
                'B': g('HH__DEM_DEP'), 'M': g('HH__DEM_MON')}
         R = lambda k: Fr('0.025') if k < 10 else Fr('0.035')
         closed = pc_closed(Fr('0.6'), Fr('0.4'), Fr('0.2'), Fr('0.635'), Fr(5), Fr('0.01'), lambda k: Fr(20), R, Fr('86.486'), Fr('64.865'), n)
+    # the initial stocks the recursion consumes are the book's, exactly as declared
+    init = {'SIM': {'H': 0.0}, 'SIMEX1': {'H': 0.0, 'YD': 16.0}, 'PC': {'H': 86.486, 'B': 64.865}}[model]
+    for name, want in sorted(init.items()):
+        if ser[name][0] != want:
+            return [core.violation('book-initial-stock-wrong:%s:%s' % (model, name), 'book configuration of %s starts with %s(0) = %r, the book has %r' % (
+                model, name, ser[name][0], want), case)], 0
     v, indet = judge(ser, closed, 1e-8, 1e-6, case, 'book-' + model)
     return ([v] if v else []), indet
+
+
+def ref_sweeps(th, a1, a2, G, Hlag, cap=400):
+    """Sweeps the simultaneous (Jacobi) update of the SIM period equations needs from a zero start until the summed change is <= .001."""
+    x = dict(tax=0., YD=0., C=0., Y=0., dHs=0., dHh=0., dH=0., H=0.)
+    for cnt in range(1, cap + 1):
+        y = dict(tax=th * x['Y'], YD=x['Y'] - x['tax'], C=a1 * x['YD'] + a2 * Hlag, Y=x['C'] + G, dHs=G - x['tax'],
+                 dHh=x['YD'] - x['C'], dH=x['dHs'], H=Hlag + x['dH'])
+        err = sum(abs(x[k] - y[k]) for k in x)
+        x = y
+        if not err > .001:
+            return cnt
+    return None
+
+
+def wealth_flows(o, closed, H0, n, tag, case, lo=0.05, hi=0.5):
+    """dHs, dHh and dH of the hand-coded model are the period change of the closed-form wealth."""
+    indet = 0
+    prev = float(H0)
+    for k, row in enumerate(closed, start=1):
+        want = float(row['H']) - prev
+        prev = float(row['H'])
+        for name in ('dHs', 'dHh', 'dH'):
+            xs = getattr(o, name)
+            if len(xs) <= k:
+                return [core.violation(tag + ':wrong-length', '%s has %d values after %d steps' % (name, len(xs), n), case)], indet
+            d = abs(xs[k] - want)
+            if d <= lo:
+                continue
+            if d >= hi:
+                return [core.violation('recursion-violated:' + tag + ':' + name, 'period %d: %s = %r, change of the closed-form wealth %r' % (k, name, xs[k], want), case)], indet
+            indet += 1
+    return [], indet
 
 
 def check_iterative_method2(case):
@@ -296,12 +335,20 @@ def check_iterative_method2(case):
     G = GPATHS[case['G']]
     o.G = [float(G(k)) for k in range(n + 1)]
     o.H = [float(case['H0'])]
+    done = 0
     try:
         for k in range(n):
             o.RunMethod2()
+            done += 1
     except ValueError as e:
         if 'No convergence' in str(e):
-            return [], -1         # the hand-coded whole-vector iteration gave up within its own cap of 100 sweeps: no verdict
+            # the hand-coded whole-vector iteration gave up within its own cap of 100 sweeps: no verdict, unless the
+            # documented scheme (simultaneous update from a zero start, stop at a summed change of .001) needs at most 60
+            need = ref_sweeps(case['th'], case['a1'], case['a2'], o.G[o.T], o.H[o.T - 1])
+            if need is not None and need <= 60:
+                return [core.violation('iterative-sim-method2-gives-up', 'RunMethod2 raised %r in step %d although the simultaneous iteration settles in %d sweeps' % (
+                    e, done + 1, need), case)], 0
+            return [], -1
         return [core.violation('iterative-sim-method2-raises:ValueError', 'RunMethod2 raised %r' % (e,), case)], 0
     except Exception as e:
         return [core.violation('iterative-sim-method2-raises:' + type(e).__name__, 'RunMethod2 raised %r' % (e,), case)], 0
@@ -318,7 +365,8 @@ def check_iterative_method2(case):
             if d >= 0.5:
                 return [core.violation('recursion-violated:iterative-SIM-method2:' + name, 'period %d: %s = %r, closed form %r' % (k, name, ser[name][k], float(want)), case)], indet
             indet += 1
-    return [], indet
+    v, i2 = wealth_flows(o, closed, case['H0'], n, 'iterative-SIM-method2', case)
+    return v, indet + i2
 
 
 def check_iterative(case):
@@ -343,7 +391,8 @@ def check_iterative(case):
             if d >= 0.5:
                 return [core.violation('recursion-violated:iterative-SIM:' + name, 'period %d: %s = %r, closed form %r' % (k, name, ser[name][k], float(want)), case)], indet
             indet += 1
-    return [], indet
+    v, i2 = wealth_flows(o, closed, case['H0'], n, 'iterative-SIM', case)
+    return v, indet + i2
 
 
 def units(tier):
